@@ -334,3 +334,16 @@ def bool_contexts(root: ast.AST) -> typing.Iterator[tuple[ast.AST, str, ast.AST]
                 yield from emit(node.operand, 'not', node)
         elif isinstance(node, ast.Call) and core.call_name(node) == 'bool' and len(node.args) == 1:
             yield from emit(node.args[0], 'bool()', node)
+        elif isinstance(node, ast.Call) and core.call_name(node) == 'filter' and len(node.args) == 2:
+            # filter(None, (a, b)) / filter(bool, [a, b]) truth-tests every element
+            pred = node.args[0]
+            if core.is_const(pred, None) or core.dotted(pred) in ('bool', 'operator.truth'):
+                seq = node.args[1]
+                if isinstance(seq, (ast.Tuple, ast.List, ast.Set)):
+                    for e in seq.elts:
+                        yield from emit(e, 'filter(None)', node)
+        elif isinstance(node, ast.Call) and core.call_name(node) in ('any', 'all') and len(node.args) == 1:
+            seq = node.args[0]
+            if isinstance(seq, (ast.Tuple, ast.List, ast.Set)):
+                for e in seq.elts:
+                    yield from emit(e, core.call_name(node) + '()', node)
